@@ -260,3 +260,71 @@ silent('c02-len-spelling', ['C01', 'C02'],
 silent('c02-whitelist-result', ['C01', 'C02', 'C15'],
        [(P, "self.tokens[0] in ('(', ')', 'and', 'or', 'not', 'string')):",
          "self.tokens[0] not in ('check', 'and_expr', 'or_expr')):")])
+
+# ------------------------------------------------------------------ C03
+fire('c03-check-default-ignored', 'C03',
+     [(POL, "        if isinstance(self.default_rule, _checks.BaseCheck):\n            return self.default_rule\n",
+       "        if False:\n            return self.default_rule\n")], 'C03.MISSING')
+fire('c03-return-key', 'C03',
+     [(POL, "        if isinstance(self.default_rule, _checks.BaseCheck):\n            return self.default_rule\n",
+       "        if isinstance(self.default_rule, _checks.BaseCheck):\n            raise KeyError(key)\n")], 'C03.MISSING')
+fire('c03-no-recursion-guard', 'C03',
+     [(POL, "        if self.default_rule not in self:\n            raise KeyError(key)\n\n        elif isinstance",
+       "        if isinstance")], 'C03.MISSING')
+fire('c03-empty-store-allows', 'C03',
+     [(POL, """            # No rules to reference means we're going to fail closed
+            result = False""", """            # No rules to reference means we're going to fail closed
+            result = True""")], 'C03.FAIL-CLOSED')
+fire('c03-keyerror-allows', 'C03',
+     [(POL, """                # If the rule doesn't exist, fail closed
+                result = False""", """                # If the rule doesn't exist, fail closed
+                result = True""")], 'C03.FAIL-CLOSED')
+fire('c03-drop-default-init', 'C03',
+     [(POL, "        self.rules = Rules(rules, self.default_rule)\n        self.registered_rules = {}",
+       "        self.rules = Rules(rules)\n        self.registered_rules = {}")], 'C03.DEFAULT-SRC')
+fire('c03-drop-default-set-rules', 'C03',
+     [(POL, "        if overwrite:\n            self.rules = Rules(rules, self.default_rule)",
+       "        if overwrite:\n            self.rules = Rules(rules)")], 'C03.DEFAULT-SRC')
+fire('c03-drop-default-load', 'C03',
+     [(POL, "            rules = Rules.load(data, self.default_rule)",
+       "            rules = Rules.load(data)")], 'C03.DEFAULT-SRC')
+fire('c03-drop-default-reset', 'C03',
+     [(POL, "                    self.rules = Rules(default_rule=self.default_rule)",
+       "                    self.rules = Rules()")], 'C03.DEFAULT-SRC')
+fire('c03-opt-default', 'C03',
+     [(OPTS, "    cfg.StrOpt('policy_default_rule',\n               default='default',",
+       "    cfg.StrOpt('policy_default_rule',\n               default='defaults',")], 'C03.DEFAULT-SRC')
+fire('c03-alias-keyerror-true', 'C03',
+     [(C, "            # We don't have any matching rule; fail closed\n            return False",
+       "            # We don't have any matching rule; fail closed\n            return True")], 'C03.RAISE-CATCH')
+fire('c03-enforce-no-catch', 'C03',
+     [(POL, "            except KeyError:\n                LOG.debug('Rule [%s] does not exist', rule)",
+       "            except AttributeError:\n                LOG.debug('Rule [%s] does not exist', rule)")], 'C03.RAISE-CATCH')
+fire('c03-rules-getitem', 'C03',
+     [(POL, "    def __missing__(self, key):\n        \"\"\"Implements the default rule handling.\"\"\"\n",
+       "    def __getitem__(self, key):\n        return dict.get(self, key) or dict.__getitem__(self, self.default_rule)\n\n    def __missing__(self, key):\n        \"\"\"Implements the default rule handling.\"\"\"\n")], 'C03.NO-OVERRIDE')
+fire('c03-init-default-from-opt-only', 'C03',
+     [(POL, "        self.default_rule = (default_rule or\n                             self.conf.oslo_policy.policy_default_rule)",
+       "        self.default_rule = self.conf.oslo_policy.policy_default_rule")], 'C03.DEFAULT-SRC')
+
+silent('c03-no-dict-guard', 'C03',
+       [(POL, "        if isinstance(self.default_rule, dict):\n            raise KeyError(key)\n\n", "")])
+silent('c03-no-falsy-guard', 'C03',
+       [(POL, "        if not self.default_rule:\n            raise KeyError(key)\n\n", "")])
+silent('c03-elif-str-else', 'C03',
+       [(POL, "        elif isinstance(self.default_rule, str):\n            return self[self.default_rule]",
+         "        else:\n            return self[self.default_rule]")])
+silent('c03-reorder-guards', 'C03',
+       [(POL, """        if isinstance(self.default_rule, dict):
+            raise KeyError(key)
+
+        # If the default rule isn't actually defined, do something
+        # reasonably intelligent
+        if not self.default_rule:
+            raise KeyError(key)
+""", """        if not self.default_rule:
+            raise KeyError(key)
+
+        if isinstance(self.default_rule, dict):
+            raise KeyError(key)
+""")])
